@@ -61,8 +61,8 @@ CLAIMED["C13"] = dict(engine="channel", tech="TLA+ model Channel.tla (FinishSess
 CLAIMED["C17"] = dict(engine="channel", tech="TLA+ model Iso.tla (per-connection channels, session context built from the channel that owns the connection, sender = that channel, fresh session ids, arbitrary registered nodes) checked by TLC; free runs of 3-12 concurrent real sessions on one Server listening on TCP, WebSocket and in-process at once, registration assigning equal addresses to several sessions; TLC monitor ChanObs (C17_Isolated)",
    text="All interleavings of three sessions' traffic are checked on the model; on the real Server every handler invocation's context values are compared with what that client's session announced, and every reply sent through the handler's sender is followed to the client that receives it.", ref="DESIGN.md 3.5, 5 (C17)", note=CHAN_NOTE)
 CLAIMED["C19"] = dict(engine="client-life", tech="TLA+ model ClientLife.tla (cached channel, getOrBuildChannel reuse rule, listener loop, effect of each fault on state / connected / receiver) checked by TLC incl. the liveness property Recovers under fairness and the invariant NoSpin; a real Client against a scripted raw server for every fault kind x moment; TLC monitor CliObs (C19_Recovers, C19_NoSpin, C19_SendTruth, C19_Closes)",
-   text="Eight fault kinds (server finish, server fail, abrupt close, connection reset, half close, undecodable bytes, non-envelope JSON, oversized envelope) x two transports (TCP, TCP upgraded to TLS) x three moments (idle, during user sends, repeated on the re-established session) are each executed on the real Client; sessions opened at the server, handler deliveries on the new session and the iteration rate of the listener loop (verif hook) are recorded and checked by TLC.", ref="DESIGN.md 3.6, 5 (C19)",
-   note="TCP and TLS-upgraded TCP transports with a 4 KiB read limit; the scripted server accepts throughout a 3 s window; spin threshold 1000 iterations/s; SendTruth is claimed for sends on a healthy session (before the fault, after recovery); trusted: TLC, CommunityModules Json, Go runtime.")
+   text="Eight fault kinds (server finish, server fail, abrupt close, connection reset, half close, undecodable bytes, non-envelope JSON, oversized envelope) x three transports (TCP, TCP upgraded to TLS, WebSocket) x three moments (idle, during user sends, repeated on the re-established session) are each executed on the real Client; sessions opened at the server, handler deliveries on the new session and the iteration rate of the listener loop (verif hook) are recorded and checked by TLC.", ref="DESIGN.md 3.6, 5 (C19)",
+   note="TCP and TLS-upgraded TCP transports with a 4 KiB read limit, WebSocket without (no oversized case there); the scripted server accepts throughout a 3 s window; spin threshold 1000 iterations/s; SendTruth is claimed for sends on a healthy session (before the fault, after recovery); trusted: TLC, CommunityModules Json, Go runtime.")
 CLAIMED["C15"] = dict(engine="blocking", tech="TLA+ model Blocking.tla (wait automaton per operation x transport: select / 5 s connection-deadline poll / wait for the polling receiver / TLS handshake / no wake-up; invariant Bounded against the delay the property states) checked by TLC; every model case timed on the real operation (transport Send/Receive/Accept, the four channel send operations, ProcessCommand, client and server EstablishSession, client FinishSession, server FinishSession / FailSession, each on TCP, WebSocket and in-process, plus the TLS upgrade on TCP) against a peer that makes no progress; TLC monitor BlockObs (C15_Bounded, C15_ReturnsError)",
    text="All operation x transport x deadline/cancel x moment combinations of the model are executed for real (thorough: three times each); the measured latency between the end of the context and the return of the call is checked by TLC against the property's bound.", ref="DESIGN.md 3.7, 5 (C15), 10.3",
    note="Wall-clock measurement with 1 s slack; peers: silent (reads), not reading with full socket buffers / stalled consumer (writes); a call not back 4 s after its bound counts as hanging; trusted: TLC, CommunityModules Json, Go runtime, crypto/tls, gorilla/websocket.")
